@@ -581,7 +581,10 @@ func buildOracle(c *pcase) string {
 		case "u":
 			ints[int64(v.U)] = true
 		case "safe":
-			strs[fmt.Sprintf("%v", v.Elems[0].Build())] = true
+			func() {
+				defer func() { _ = recover() }()
+				strs[fmt.Sprintf("%v", v.Elems[0].Build())] = true
+			}()
 		}
 	}
 	fa := func(a *Act) {
